@@ -217,6 +217,7 @@ func init() {
 		// gives `u64 Price` the width of an unrelated entry called Price)
 		r.refile("C08/type-mapping-siblings", "C01/type-mapping-siblings", func(sr *Report) { c08TypeMappingSiblings(w, sr) }, nil)
 		wireFieldOrderEmission(wc, r, "C01", map[string]bool{"enc": true})
+		fieldTextIndependentOfSiblings(w, r, "C01")
 		wireAssumptions(r)
 	})
 	register("C02", "Sensitivity of the decode emitters (as C01, for decoders) plus encode/decode symmetry per language: for each cell the decoder's dependence set must include every wire-determining input its own encoder depends on - a decoder that ignores an option its encoder honours cannot invert it. "+
@@ -243,6 +244,7 @@ func init() {
 		wireCppBeName(wc, r, "C02", []string{"dec"}, 1<<kBasic|1<<kLength|1<<kCheckSum)
 		wireOrder(wc, r, "C02", "dec")
 		wireFieldOrderEmission(wc, r, "C02", map[string]bool{"dec": true})
+		fieldTextIndependentOfSiblings(w, r, "C02")
 		sizeSumHonoursRepeat(w, r, "C02")
 		kindByRuleNotByText(w, r, "C02")
 		r.refile("C05/key-as-written", "C02/key-as-written", func(sr *Report) { wireKeyAsWritten(w, wc, sr, "C05") }, nil)
@@ -267,6 +269,7 @@ func init() {
 		sizeSumHonoursRepeat(w, r, "C03")
 		nameKeyedSetOverInline(w, r, "C03", func(fn *ssa.Function) bool { return isGeneratorFunc(fn) && recvNamedCore(fn) != "LuaWspGenerator" && roleOf(fn) != "test" }, "a generator remembers the packets it has written under their names and consults that set for inline objects too: of two inline objects that share a name (or an inline object named like a declared packet) only the first is emitted, and the members of the other are encoded with its layout")
 		wireModelFrame(w, r, "C03", frameWire, nil, nil, "a generator rewrites the part of the shared model the codecs are derived from: the targets generated before and after it disagree on the wire")
+		fieldTextIndependentOfSiblings(w, r, "C03")
 		wireAssumptions(r)
 	})
 	register("C04", "Length-of fields: (link) the parser gives the target field its LenAttr and the length field its resolved target on every path where a length field exists, with a checked lookup; (placeholder/back-patch) every codec generator has an emission under the LengthFieldAttribute case that depends on the field's type, and an emission under the LenAttr test that depends on byte order and on the length field's own type, and decoders read the field with byte order and type. "+
@@ -334,6 +337,7 @@ func init() {
 		wireOrder(wc, r, "C06", "enc")
 		wireOneByteEndian(w, wc, r, "C06")
 		wireFieldOrderEmission(wc, r, "C06", map[string]bool{"enc": true, "dec": true})
+		fieldTextIndependentOfSiblings(w, r, "C06")
 		wireAssumptions(r)
 	})
 	register("C15", "Lua dissector, decided part: the dissector emitters depend on the list/string prefix types, the scalar type and the byte order for every cell; every emission that takes a size from a source (fixed length, scalar table Size, prefix table Size) takes the range and the advance from the same source; the scalar table agrees with the other languages. "+
